@@ -430,3 +430,105 @@ def class_model(key, methods, pq):
     out = list(f(methods["_forward"], methods["_backward"], methods["_jacobian"], pq))
     _MEMO[key] = out
     return out
+
+
+# ------------------------------------------------------------------------------------------------ avoidable overflow
+class _Timeout(Exception):
+    pass
+
+
+def _limit(e, x, d, seconds=6):
+    import signal
+
+    def _alarm(*_a):
+        raise _Timeout()
+    old = signal.signal(signal.SIGALRM, _alarm)
+    signal.alarm(seconds)
+    try:
+        return sp.limit(e, x, d)
+    finally:
+        signal.alarm(0)
+        signal.signal(signal.SIGALRM, old)
+
+
+_PVALS = [(3, 7), (5, 3), (11, 4), (2, 9), (7, 5), (13, 6)]
+
+
+def overflow_clauses(fwd, bwd, pq):
+    """An exponential-type intermediate (exp, sinh, cosh of an argument that grows without bound on the domain) overflows
+    the double range at moderate arguments (~710).  That is harmless when the final value overflows too (the function itself
+    is exponential) or when the infinity propagates to the correct limit (1/(1+inf) = 0); it is a defect when the final
+    value grows sub-exponentially (log|F| / |argument| -> 0): the result is representable but comes out as inf or NaN.
+    yields (clause, ok | None, detail); directions in which the limit computation does not finish are skipped (noted)."""
+    if not HAVE:
+        raise Undecided("sympy / numpy are not importable in this interpreter")
+    ctx = Ctx()
+    x = sp.Symbol("x", real=True)
+    built = {}
+    for nm, f in (("_forward", fwd), ("_backward", bwd)):
+        vn, e = returning_value(f, pq)
+        env = {('sym', 'EPS'): sp.Rational(1, 10 ** 10)}
+        opaque_params(e, vn, env, ctx)
+        env[('sym', vn)] = x
+        F = build(e, env, ctx)
+        conds = [build_cond(c, env, ctx) if t else sp.Not(build_cond(c, env, ctx)) for c, t in domain_conds(e, [])]
+        params = sorted(F.free_symbols - {x}, key=str)
+        sub = {p: sp.Rational(*_PVALS[i % len(_PVALS)]) for i, p in enumerate(params)}
+        built[nm] = (F.subs(sub), [c.subs(sub) for c in conds if c is not None])
+    dirs = {}
+    Ff, cf = built["_forward"]
+    fdirs = []
+    for d in (sp.oo, -sp.oo):
+        okd = True
+        for c in cf:
+            try:
+                big = c.subs(x, d if d == sp.oo else -sp.oo)
+                if big is sp.false or big == False:      # noqa: E712
+                    okd = False
+            except Exception:
+                pass
+        if okd:
+            fdirs.append(d)
+    dirs["_forward"] = fdirs
+    bdirs = set()
+    for d in fdirs:
+        try:
+            L = _limit(Ff, x, d)
+            if L in (sp.oo, -sp.oo):
+                bdirs.add(L)
+        except Exception:
+            bdirs |= {sp.oo, -sp.oo}
+    if not cf and len(fdirs) == 2 and not bdirs:
+        bdirs = {sp.oo, -sp.oo}
+    dirs["_backward"] = sorted(bdirs, key=str)
+    for nm in ("_forward", "_backward"):
+        F, _c = built[nm]
+        seen = set()
+        for d in dirs[nm]:
+            for N in sp.preorder_traversal(F):
+                if not isinstance(N, (sp.exp, sp.sinh, sp.cosh)) or (N, d) in seen:
+                    continue
+                seen.add((N, d))
+                a = N.args[0]
+                dname = "+inf" if d == sp.oo else "-inf"
+                clause = f"{nm}: {type(N).__name__}({a}) as the argument -> {dname}"
+                try:
+                    la = _limit(a, x, d)
+                    if not (la == sp.oo or (isinstance(N, (sp.sinh, sp.cosh)) and la == -sp.oo)):
+                        continue
+                    L = _limit(F, x, d)
+                    if L in (sp.oo, -sp.oo):
+                        g = _limit(sp.log(sp.Abs(F)) / sp.Abs(a), x, d)
+                        if g == 0:
+                            yield (clause, False, f"the intermediate overflows near |argument| = 710 while the result grows sub-exponentially (log|result| / |argument| -> 0): "
+                                                  f"finite results are returned as inf / NaN for large arguments")
+                        else:
+                            yield (clause, True, f"the result itself grows exponentially (log|result| / |argument| -> {g})")
+                    elif L.is_finite:
+                        got = F.subs(N, sp.oo)
+                        ok = sp.simplify(got - L) == 0 if got.is_finite else False
+                        yield (clause, bool(ok), f"result -> {L}; with the intermediate at infinity the expression gives {got}")
+                except _Timeout:
+                    continue
+                except Exception:
+                    continue
